@@ -34,6 +34,8 @@ static POLLED: [[AtomicU32; MAXE]; MAXA] = [ZR; MAXA];
 static ARM_RUNNING: AtomicU32 = AtomicU32::new(0);
 static ARM_STARTED: AtomicU32 = AtomicU32::new(0);
 static ARM_ENDED: AtomicU32 = AtomicU32::new(0);
+/// bit i: arm i has raised its scripted panic (set right before the panic)
+static ARM_PANICKED: AtomicU32 = AtomicU32::new(0);
 
 struct ArmGuard;
 impl ArmGuard {
@@ -92,14 +94,16 @@ fn gen(seed: u64) -> Params {
                     _ => Top::Nothing,
                 })
                 .collect();
-            let panic_at = if r.chance(1, 8) { Some((r.below(k as u64) as usize, r.below(2) as u8)) } else { None };
+            let panic_at = if r.chance(1, 5) { Some((r.below(k as u64) as usize, r.below(2) as u8)) } else { None };
             Arm { events, panic_at }
         })
         .collect();
     Params {
         rt,
         poller: Ctx::gen(&mut r),
-        poll_timeout: if r.chance(1, 3) { Some(*r.pick(&[1_000u64, 500_000, 1_000_000, 1_500_000, 5_000_000])) } else { None },
+        // short timeouts make the poller loop: it is then often inside poll() at the very moment a
+        // select coroutine ends
+        poll_timeout: if r.chance(1, 2) { Some(*r.pick(&[1_000u64, 1_000, 20_000, 500_000, 1_000_000, 1_500_000, 5_000_000])) } else { None },
         leave_after: if r.chance(1, 3) { Some(r.below(4) as usize) } else { None },
         remove: if r.chance(1, 5) { Some((r.below(n as u64) as usize, r.below(3) as usize)) } else { None },
         feeder_delay: *r.pick(&[0u64, 300_000, 1_000_000]),
@@ -152,6 +156,7 @@ pub fn run_cqueue(seed: u64, mut ov: impl FnMut(&mut engine::Cfg)) -> ! {
                                     Top::Nothing => {}
                                 }
                                 if arm.panic_at == Some((e, 0)) {
+                                    ARM_PANICKED.fetch_or(1 << i, Ordering::Relaxed);
                                     std::panic::panic_any(Scripted(i as u32));
                                 }
                                 TOP[i][e].fetch_add(1, Ordering::Relaxed);
@@ -164,6 +169,7 @@ pub fn run_cqueue(seed: u64, mut ov: impl FnMut(&mut engine::Cfg)) -> ! {
                                     violation(&format!("arm {} event {}: bottom half ran twice", i, e));
                                 }
                                 if arm.panic_at == Some((e, 1)) {
+                                    ARM_PANICKED.fetch_or(1 << i, Ordering::Relaxed);
                                     std::panic::panic_any(Scripted(i as u32));
                                 }
                             }
@@ -233,6 +239,12 @@ pub fn run_cqueue(seed: u64, mut ov: impl FnMut(&mut engine::Cfg)) -> ! {
                                     en, n_arms
                                 ));
                             }
+                            // the end of a select coroutine is an event too (it carries the panic):
+                            // it is consumed by a poll, which re-raises the panic there and then.
+                            // Finished after a panic means that end was never consumed
+                            if ARM_PANICKED.load(Ordering::Relaxed) != 0 && remove.is_none() {
+                                violation("poll reported Finished although a select coroutine has panicked: its end (which carries the panic) was not consumed by any poll");
+                            }
                             break;
                         }
                     }
@@ -286,7 +298,11 @@ pub fn run_cqueue(seed: u64, mut ov: impl FnMut(&mut engine::Cfg)) -> ! {
     rt::expect_end(&mut actors[0], false);
     let out = outcome.lock().unwrap().clone();
     match out {
-        Some(Ok(())) => {}
+        Some(Ok(())) => {
+            if ARM_PANICKED.load(Ordering::Relaxed) != 0 && p.remove.is_none() {
+                violation("a select coroutine panicked but cqueue::scope ended normally: the panic was swallowed");
+            }
+        }
         Some(Err(m)) => {
             if !(any_panic && m.starts_with("scripted")) {
                 violation(&format!("the poller ended with an unexpected panic: {}", m));
